@@ -76,6 +76,7 @@ type fieldAccess struct {
 	Fn    string
 	Chain string
 	ByType bool // attributed by field type (summarised callee), not by object
+	fvar   *types.Var
 }
 
 type locksVocab struct {
@@ -152,6 +153,8 @@ type locksPlugin struct {
 	accSeen  map[string]bool
 	nilDeref bool // report definite nil dereferences
 	events   int
+	newTx    *ssa.Function
+	onNewTx  func(in *Interp, fs *FState, site ssa.Instruction)
 }
 
 func newLocksPlugin(v *locksVocab, role string) *locksPlugin {
@@ -274,6 +277,9 @@ func isNamed(t types.Type, pkgPath, name string) bool {
 
 func (l *locksPlugin) OnCall(in *Interp, fs *FState, site ssa.Instruction, callee *ssa.Function, fnv Value, args []Value) (bool, Value) {
 	if callee != nil {
+		if callee == l.newTx && l.onNewTx != nil {
+			l.onNewTx(in, fs, site)
+		}
 		if ev, ok := l.voc.lockFns[callee]; ok {
 			if ev[1] == "lock" {
 				l.acquire(in, fs, site, ev[0])
@@ -391,7 +397,7 @@ func (l *locksPlugin) recordAccess(in *Interp, fs *FState, instr ssa.Instruction
 	}
 	l.accSeen[k] = true
 	l.accesses = append(l.accesses, fieldAccess{Field: field, Write: write, Held: held, Role: l.role,
-		Pos: in.P.InstrPos(instr), Fn: funcName(instr.Parent()), Chain: strings.Join(in.chain(), ">")})
+		Pos: in.P.InstrPos(instr), Fn: funcName(instr.Parent()), Chain: strings.Join(in.chain(), ">"), fvar: c.fvar})
 }
 
 // onSkip: a callee without lock events was summarised; attribute its field accesses to the call site.
@@ -416,7 +422,7 @@ func (l *locksPlugin) onSkip(in *Interp, fs *FState, site ssa.Instruction, calle
 		}
 		l.accSeen[k] = true
 		l.accesses = append(l.accesses, fieldAccess{Field: field, Write: write, Held: held, Role: l.role,
-			Pos: in.P.InstrPos(site), Fn: funcName(site.Parent()) + " → " + funcName(callee) + " (summarised)", Chain: strings.Join(in.chain(), ">"), ByType: true})
+			Pos: in.P.InstrPos(site), Fn: funcName(site.Parent()) + " → " + funcName(callee) + " (summarised)", Chain: strings.Join(in.chain(), ">"), ByType: true, fvar: f})
 	}
 	for f := range eff.mods {
 		rec(f, true)
